@@ -123,6 +123,8 @@ def make(kind, k, p, tg):
 
 def drive(kind, k, p, tg, n, every=1, outcomes=None):
     st, cap = make(kind, k, p, tg)
+    if every == 1 and outcomes is None and n > 20:
+        every = 1 + (n * 7 + k) % 4          # the content is also read only now and then (lazy bookkeeping must not depend on reads)
     arrivals, pos = [], {}
     evals = 0
     for i in range(n):
@@ -232,6 +234,18 @@ def main(run):
                                       f"{kind} k={k} p={p} targets={tg} stream style {style}: {b}",
                                       {"kind": kind, "k": k, "p": p, "store_targets": tg, "style": style})
                         break
+    # ---- every capacity 1..130 (thin slices of the size axis), a few updates beyond full, every storage class
+    for kind in ("interval", "uniform", "geometric"):
+        for k in range(1 + sh, 131, nsh):
+            for tg in (True, False):
+                random.seed(rnd.randrange(2 ** 31))
+                try:
+                    run.ok(drive(kind, k, None if kind != "geometric" else 1.0, tg, k + 4, every=max(1, k // 3)), kind="capacity-sweep")
+                except Bad as b:
+                    run.ok(kind="capacity-sweep")
+                    run.violation(f"{kind if kind != 'interval' else 'deterministic'}:{b.mech}", f"{kind} capacity {k} targets={tg}: {b}",
+                                  {"kind": kind, "k": k, "store_targets": tg, "n": k + 4})
+        run.nontriv(("capacity-sweep", kind, sh))
     # ---- (b) long seeded streams
     n_long = 20000 if thorough else 4000
     for j, (kind, k, p) in enumerate([("uniform", 1, None), ("uniform", 7, None), ("uniform", 100, None),
